@@ -18,8 +18,9 @@ func init() {
 // ---- quasiquote templates and the textbook reference
 
 type qqNode struct {
-	kind  int // 0 atom, 1 (unquote x), 2 (unquote y) [list value], 3 (unquote-splicing xs), 4 list, 5 quoted atom, 6 (unquote s) [symbol value]
+	kind  int // 0 atom, 1 (unquote x), 2 (unquote y) [list value], 3 (unquote-splicing xs), 4 list, 5 quoted atom, 6 (unquote s) [symbol value], 7 q quote marks in front of kids[0], 8 bracket list
 	atom  int
+	q     int
 	kids  []*qqNode
 	bound string
 }
@@ -30,10 +31,50 @@ func qqGen(depth int, inList bool) *qqNode {
 	n := &qqNode{}
 	opts := 6
 	if inList {
-		opts = 7
+		opts = 9
+	}
+	if depth < 0 {
+		// below the depth bound: leaves only (case 5, a nested list, is empty at depth <= 0)
+		opts = 5
+		if inList {
+			opts = 6
+		}
 	}
 	k := vndChoice("node", opts)
+	if depth < 0 && k == 5 {
+		k = 6
+	}
 	switch k {
+	case 7:
+		// explicit quote marks (one or two) in front of a sub-template: the sub-template is still
+		// filled in, and the marks stay ("at any nesting of lists and quotes")
+		n.kind, n.q = 7, 1
+		if vndChoice("qmarks", 2) == 1 {
+			n.q = 2
+		}
+		c := &qqNode{}
+		switch vndChoice("qchild", 4) {
+		case 0:
+			c.kind = 6
+		case 1:
+			c.kind = 2
+		case 2:
+			c.kind, c.atom = 0, 0
+		case 3:
+			c.kind = 4
+			nk := 1 + vndChoice("qkids", 2)
+			for i := 0; i < nk; i++ {
+				c.kids = append(c.kids, qqGen(depth-1, true))
+			}
+		}
+		n.kids = []*qqNode{c}
+	case 8:
+		// a bracket list is a quoted list
+		n.kind = 8
+		nk := 1 + vndChoice("bkids", 2)
+		for i := 0; i < nk; i++ {
+			n.kids = append(n.kids, qqGen(depth-1, true))
+		}
 	case 0:
 		n.kind, n.atom = 0, vndChoice("atom", len(qqAtoms))
 	case 1:
@@ -72,10 +113,15 @@ func (n *qqNode) src() string {
 		return "'b"
 	case 6:
 		return "(unquote s)"
+	case 7:
+		return strings.Repeat("'", n.q) + n.kids[0].src()
 	}
 	parts := make([]string, len(n.kids))
 	for i, k := range n.kids {
 		parts[i] = k.src()
+	}
+	if n.kind == 8 {
+		return "[" + strings.Join(parts, " ") + "]"
 	}
 	return "(" + strings.Join(parts, " ") + ")"
 }
@@ -114,10 +160,16 @@ func (n *qqNode) want(x *lisp.LVal, xs []*lisp.LVal, top bool) []string {
 		return []string{"'b"}
 	case 6:
 		return []string{"'sym"}
+	case 7:
+		w := n.kids[0].want(x, xs, false)
+		return []string{strings.Repeat("'", n.q) + w[0]}
 	}
 	var parts []string
 	for _, k := range n.kids {
 		parts = append(parts, k.want(x, xs, false)...)
+	}
+	if n.kind == 8 {
+		q = "'"
 	}
 	return []string{q + "(" + strings.Join(parts, " ") + ")"}
 }
